@@ -96,6 +96,13 @@ def oracle(w):
         return str(acc), None
     if f == "join":
         return ", ".join(map(str, L(1))), None
+    if f == "joins":
+        words = ["" if t == "E" else t for t in w[1].split(",")]
+        delim = {"c": ",", "cs": ", ", "e": ""}.get(w[2], "--")
+        return csv(list(delim.join(words).encode())), None
+    if f == "to_strings":
+        words = ["" if t == "E" else t for t in w[1].split(",")]
+        return csv(list(("[" + ", ".join(words) + "]").encode())), None
     if f == "to_string":
         return "[" + ", ".join(map(str, L(1))) + "]", None
     if f == "generate_range":
@@ -133,7 +140,7 @@ def gen_list(rng, maxn):
     return [rng.choice([rng.range(-9, 9), rng.range(0, 6), 0, 5, -3]) for _ in range(n)]
 
 
-RANGE_OK = ["for_each", "any_of", "all_of", "contains", "foldl", "sum", "product", "join"]
+RANGE_OK = ["for_each", "any_of", "all_of", "contains", "foldl", "sum", "product", "join", "joins"]
 
 
 def gen_case(rng, maxn):
@@ -146,7 +153,11 @@ def gen_case(rng, maxn):
 def gen_case0(rng, maxn):
     f = rng.choice(["for_each", "any_of", "all_of", "contains", "map", "foldl", "sum", "product", "concat", "take", "drop", "take_while", "drop_while",
                     "filter", "reduce", "join", "to_string", "generate_range", "zip_with", "zip", "reverse", "retro", "retroretro", "find", "min", "max",
-                    "odd", "even", "ltrim", "rtrim", "trim"])
+                    "odd", "even", "ltrim", "rtrim", "trim", "joins", "to_strings"])
+    if f in ("joins", "to_strings"):
+        # strings, the empty one included, at every position
+        words = [rng.choice(["E", "E", "a", "bc", "x", "E"]) for _ in range(rng.choice([1, 1, 2, 3, 4, maxn]))]
+        return "%s %s%s" % (f, ",".join(words), " " + rng.choice(["c", "cs", "e", "dd"]) if f == "joins" else "")
     xs = gen_list(rng, maxn)
     n = len(xs)
     if f in ("for_each", "sum", "product", "join", "to_string", "reverse", "retro", "retroretro"):
